@@ -17,6 +17,16 @@ CHECKS = {
    note="Trusted: Coq kernel + VM; hand-written model; Go regexp/Atoi outside the swept space assumed to behave as on it. No axioms.",
    technique="Coq proof (finite sweep lifted by lemma to all strings) + exhaustive differential correspondence",
    design="§5 C11"),
+ "C14": dict(
+   text="Proof: Coq theorems over every configuration and every key history (no hypothesis; sequence keys may be note or action keys): the "
+        "termination signal is raised at an event only if it is a press after which every key of a non-empty sequence is down, with the set "
+        "of keys down defined from the history alone (C14_never_before); on such a press the output is exactly one signal, no MIDI, and only "
+        "the key tracker changes (C14_fires_and_swallows); an empty sequence never signals (C14_empty). Tie to /repo: the real Device is "
+        "stepped through generated histories (all press orders of sequences of length 0-3, release/re-press, other keys interleaved, random) "
+        "and the decidable monitor the theorems are about is evaluated in coqc on the implementation's per-event signal counts, MIDI and State().",
+   note="Trusted: Coq kernel + VM; hand-written device model (Model/Device.v) compared per event with the implementation; Go channel semantics of the buffered signal channel. No axioms.",
+   technique="Coq proof by case analysis of the step function lifted to histories + per-event differential correspondence",
+   design="§5 C14"),
 }
 
 def main():
